@@ -112,7 +112,7 @@ fn mutate(text: &str, seed: u64) -> String {
 }
 
 /// a short token soup in one position of an otherwise valid program
-fn skeleton(seed: u64) -> String {
+pub fn skeleton(seed: u64) -> String {
     let mut rng = Rng::new(seed);
     const TYPES: &[&str] = &["int", "uint", "float", "float4", "bool", "half", "double", "float3x3", "float4x4", "uint2", "int3", "S", "E", "T2", "void", "Texture2D<float4>", "RWTexture2D<float>",
         "StructuredBuffer<S>", "RWStructuredBuffer<uint>", "ByteAddressBuffer", "BufferAddress", "SamplerState", "ConstantBuffer<S>", "RayDesc", "RayQuery<0>", "RaytracingAccelerationStructure",
